@@ -14,7 +14,7 @@ PROP = {
         "fan-out (two connections with the same condition) upstream of an answering processor is accepted under either reading (the answer stops the whole walk / only its branch)",
         "every answering processor has a response connection (without one the statement does not say where the response path continues)",
         "on the response side only the order of the user flow's own processors and the presence of the quota end flow are asserted; the relative order of system flows on responses is not fixed by the statement beyond 'reverse'",
-        "cross-flow references are generated in the two documented directions only (request: `from: flow X at end -> to: processor`; response: `from: processor -> to: flow X at start`), with a referenced flow whose own filter never matches the transaction; referencing single processors of another flow (`Other.proc`) and references in the opposite directions are exercised by C05 for safety only",
+        "cross-flow references are generated in the two documented directions only (request: `from: flow X at end -> to: processor`; response: `from: processor -> to: flow X at start`), with a referenced flow whose own filter never matches the transaction; a third of the cases also use one processor of a further flow through the cross-flow processor reference `Lib.K0`, next to an own processor with the same key and another parameter; references in the opposite directions are exercised by C05 for safety only",
     ],
     "units": [
         {"pkg": "c04", "test": "TestGraphWalk", "quick": 600, "thorough": 5000, "shards": 16},
